@@ -8,6 +8,36 @@ open Bycycle
 
 def bad (msg : String) : V := .list [.atom "bad-request", .atom msg]
 
+def decCycRow (v : V) : Option CycRow :=
+  match v with
+  | .list [a, b, c, d] => do
+      let a ← a.orat?; let b ← b.orat?; let c ← c.orat?; let d ← d.orat?
+      pure ⟨a, b, c, d⟩
+  | _ => none
+
+def decCycThresh (v : V) : Option CycThresh :=
+  match v with
+  | .list [a, b, c, d, k] => do
+      let a ← a.rat?; let b ← b.rat?; let c ← c.rat?; let d ← d.rat?; let k ← k.rat?
+      pure ⟨a, b, c, d, k⟩
+  | _ => none
+
+def decPairNat (v : V) : Option (Nat × Nat) :=
+  match v with
+  | .list [a, b] => do let a ← a.nat?; let b ← b.nat?; pure (a, b)
+  | _ => none
+
+/-- the statement of C06 with its rejection clauses, as an executable function. -/
+def cyclesSpecFull (rows : List CycRow) (th : CycThresh) : Except Err (List Bool) :=
+  if !decide th.valid then .error .valueError
+  else if !rows.isEmpty && decide (th.minN < 0) then .error .valueError
+  else .ok (cyclesSpec rows th)
+
+def ampSpecFull (fracs : List (Option Rat)) (thr k : Rat) : Except Err (List Bool) :=
+  if decide (thr < 0) || decide (1 < thr) then .error .valueError
+  else if !fracs.isEmpty && decide (k < 0) then .error .valueError
+  else .ok (ampSpec fracs thr k)
+
 def handle (args : List V) : V :=
   match args with
   | [.atom "ping"] => .atom "pong"
@@ -22,6 +52,44 @@ def handle (args : List V) : V :=
       if m.isEmpty then .list [.atom "ok", encBits []]
       else if k < 0 then encErr .valueError else .list [.atom "ok", encBits (minRunSpec m k)]
     | _, _ => bad "minrun.spec"
+  -- C06
+  | [.atom "cycles.model", rows, th] =>
+    match rows.listOf? decCycRow, decCycThresh th with
+    | some rows, some th => encExcept encBits (detectCycles rows th)
+    | _, _ => bad "cycles.model"
+  | [.atom "cycles.spec", rows, th] =>
+    match rows.listOf? decCycRow, decCycThresh th with
+    | some rows, some th => encExcept encBits (cyclesSpecFull rows th)
+    | _, _ => bad "cycles.spec"
+  -- C07
+  | [.atom "amp.model", fracs, thr, k] =>
+    match fracs.listOf? V.orat?, thr.rat?, k.rat? with
+    | some f, some t, some k => encExcept encBits (detectAmp f t k)
+    | _, _, _ => bad "amp.model"
+  | [.atom "amp.spec", fracs, thr, k] =>
+    match fracs.listOf? V.orat?, thr.rat?, k.rat? with
+    | some f, some t, some k => encExcept encBits (ampSpecFull f t k)
+    | _, _, _ => bad "amp.spec"
+  | [.atom "bfrac.model", mask, sides] =>
+    match mask.bits?, sides.listOf? decPairNat with
+    | some m, some s => encList encORat (burstFraction m s)
+    | _, _ => bad "bfrac.model"
+  | [.atom "bfrac.spec", mask, sides] =>
+    match mask.bits?, sides.listOf? decPairNat with
+    | some m, some s => encList encORat (s.map fun p => burstFractionSpec m p.1 p.2)
+    | _, _ => bad "bfrac.spec"
+  | [.atom "minn.model", b, t] =>
+    match b.opt? V.rat?, t.opt? V.rat? with
+    | some b, some t => let r := reconcileMinN b t; .list [encRat r.1, encRat r.2]
+    | _, _ => bad "minn.model"
+  | [.atom "minn.spec", b, t] =>
+    match b.opt? V.rat?, t.opt? V.rat? with
+    | some b, some t => let r := b.getD (t.getD 3); .list [encRat r, encRat r]
+    | _, _ => bad "minn.spec"
+  | [.atom "bfguard.model", fs, lo, hi] =>
+    match fs.rat?, lo.rat?, hi.rat? with
+    | some fs, some lo, some hi => encExcept (fun _ => .atom "unit") (burstFractionGuard fs lo hi)
+    | _, _, _ => bad "bfguard.model"
   | _ => bad "unknown-command"
 
 partial def loop (hin : IO.FS.Stream) (hout : IO.FS.Stream) : IO Unit := do
